@@ -43,6 +43,16 @@ func (i *Inbox) Normalize(normalizers tax.Normalizers) {
 		return
 	}
 	uuid.Normalize(&i.UUID)
+	i.moveCodeToEmailOrURL()
+	i.Scheme = cbc.NormalizeAlphanumericalCode(i.Scheme)
+	i.Code = cbc.NormalizeCode(i.Code)
+	// cleaning the code may be what turns it into an address: decide again now,
+	// so that normalising the result once more changes nothing
+	i.moveCodeToEmailOrURL()
+	normalizers.Each(i)
+}
+
+func (i *Inbox) moveCodeToEmailOrURL() {
 	code := i.Code.String()
 	if govalidator.IsEmail(code) {
 		i.Email = code
@@ -51,9 +61,6 @@ func (i *Inbox) Normalize(normalizers tax.Normalizers) {
 		i.URL = code
 		i.Code = ""
 	}
-	i.Scheme = cbc.NormalizeAlphanumericalCode(i.Scheme)
-	i.Code = cbc.NormalizeCode(i.Code)
-	normalizers.Each(i)
 }
 
 // Validate ensures the inbox's fields look good.
